@@ -831,7 +831,8 @@ def h_copy(ev, name, pos, kw, ctx, t):
 def h_asarray(ev, name, pos, kw, ctx, t):
     x = pos[0] if pos else (argval(pos, kw, None, 'a') or UNKNOWN)
     dt = argval(pos, kw, 1, 'dtype')
-    alias = x.alias if dt is None else maybe(x.alias)
+    # asarray(x, dtype=T) returns x itself whenever x already has dtype T: a genuine may-alias
+    alias = x.alias
     if x.kind is not TOP and x.kind <= {'list', 'tuple', 'scalar'}:
         alias = frozenset()
     return AV(kind=ARR, deps=x.deps, alias=alias, shape=x.shape, norm=x.norm, sign=x.sign, dtype=x.dtype, vid=x.vid if dt is None else None,
